@@ -144,6 +144,13 @@ class RemoteSession:
         self.eof_at: float | None = None
         self.reset_seen = False
         self.reading = True
+        # kernel TCP timing is real while our clock is virtual: never let Nagle / delayed ACK hold bytes back
+        # (40 ms of real time would be minutes of virtual time)
+        try:
+            sock.setsockopt(socket.IPPROTO_TCP, socket.TCP_NODELAY, 1)
+            sock.setsockopt(socket.IPPROTO_TCP, socket.TCP_QUICKACK, 1)
+        except OSError:
+            pass
         self._task = asyncio.ensure_future(self._reader())
         self.id = len(lab.sessions)
         lab.sessions.append(self)
@@ -157,6 +164,10 @@ class RemoteSession:
                     await asyncio.sleep(0.01)
                     continue
                 data = await loop.sock_recv(self.sock, 65536)
+                try:
+                    self.sock.setsockopt(socket.IPPROTO_TCP, socket.TCP_QUICKACK, 1)
+                except OSError:
+                    pass
                 if not data:
                     self.eof_at = self.lab.clock.now
                     self.lab.event('remote-eof', session=self.id)
@@ -358,8 +369,17 @@ class Lab:
 
         orig_writer = Connection.writer_async
 
+        serial = [0]
+
+        def cid(conn):
+            # id() values are reused once a Connection is freed: number the objects instead
+            if not hasattr(conn, '_verif_serial'):
+                serial[0] += 1
+                conn._verif_serial = serial[0]
+            return conn._verif_serial
+
         async def writer_async(conn, data):
-            lab.event('write', conn=id(conn), direction=conn.direction, mtype=bytes(data)[18] if len(data) > 18 else -1, length=len(data), open=conn.io is not None)
+            lab.event('write', conn=cid(conn), direction=conn.direction, mtype=bytes(data)[18] if len(data) > 18 else -1, length=len(data), open=conn.io is not None)
             return await orig_writer(conn, data)
 
         Connection.writer_async = writer_async
@@ -368,7 +388,7 @@ class Lab:
 
         def close(conn):
             if conn.io is not None:
-                lab.event('conn-close', conn=id(conn), direction=conn.direction)
+                lab.event('conn-close', conn=cid(conn), direction=conn.direction)
             return orig_close(conn)
 
         Connection.close = close
